@@ -23,8 +23,10 @@ class MP:
     (or a `bypass` edge)."""
 
     def __init__(self, oid, fn, file, via, dst, src=None, init_seq=None, bypass=(),
-                 init=None, keys=(), fail=None, plain=False, why="", min_guards=1, states=None):
+                 init=None, keys=(), fail=None, plain=False, why="", min_guards=1, states=None,
+                 resume=True):
         self.states = states
+        self.resume = resume
         self.oid, self.fn, self.file = oid, fn, file
         self.via, self.dst, self.src = via, dst, src
         self.init_seq, self.bypass = init_seq, bypass
@@ -101,18 +103,18 @@ class PlainGraph:
 _graphs = {}
 
 
-def graph_for(prog, f, keys, init, init_seq, plain):
+def graph_for(prog, f, keys, init, init_seq, plain, resume=True):
     cg = common.callgraph(prog)
     rs = common.retsets(prog)
     kk = (id(prog), f.key, tuple((k.kind, k.name, k.rec, k.label) for k in keys),
           tuple(sorted((a, tuple(b)) for a, b in init.items())),
-          tuple(init_seq) if init_seq else None, plain)
+          tuple(init_seq) if init_seq else None, plain, resume)
     if kk not in _graphs:
         if plain:
             _graphs[kk] = PlainGraph(prog, f, cg, rs, extra_keys=keys, init=init)
         else:
             _graphs[kk] = machine.Machine(prog, f, cg, rs, extra_keys=keys, init=init,
-                                          seq_init=init_seq)
+                                          seq_init=init_seq, resume_edges=resume)
     return _graphs[kk]
 
 
@@ -144,6 +146,17 @@ def make_dst(m, f, dst):
                 return "return <unknown>"
             hit = set(rv) & vals
             return ("return %s" % sorted(hit)) if hit else None
+        return pred
+    if kind == "retexpr":
+        blocks = set()
+        for b, i, e in f.iter_elems():
+            if e.get("k") == "ret" and e.get("e") is not None and guard.pat_match(f, e["e"], dst[1]):
+                blocks.add(b.id)
+        if not blocks:
+            raise AnalysisBroken("%s: no return matching %s" % (f.name, dst[1]))
+
+        def pred(node):
+            return ("return <%s>" % dst[1]) if node[0] in blocks else None
         return pred
     if kind == "seq":
         target = m.enum[dst[1]]
@@ -207,7 +220,7 @@ def evaluate(ck, prog, rule, table, floor=None):
     for ob in table:
         f = prog.fn(ob.fn, ob.file)
         ck.saw_function(f)
-        m = graph_for(prog, f, ob.keys, ob.init, ob.init_seq, ob.plain)
+        m = graph_for(prog, f, ob.keys, ob.init, ob.init_seq, ob.plain, getattr(ob, "resume", True))
         key = "%s:%s" % (rule, ob.oid)
         if isinstance(ob, Present):
             gs = find_guards(prog, f, ob.spec)
